@@ -208,7 +208,7 @@ def fa1(F, R):
 
 
 @rule("NT1", ["C01", "C04", "C06"], floor=10,
-      doc="the integer newtypes are plain integers: every Add/Sub/AddAssign/SubAssign impl of BlockIdx, BlockCount and ClusterId is exactly field arithmetic (Self(self.0 op rhs.0) resp. self.0 = self.0 op rhs.0), which is what lets the formula rules (CB1, SK5, LS4, BM1) treat `a + b` on these types as integer addition; BlockCount::from_bytes is the ceiling division by 512")
+      doc="the integer newtypes are plain integers: every Add/Sub/AddAssign/SubAssign impl of BlockIdx, BlockCount and ClusterId is exactly field arithmetic (Self(self.0 op rhs.0) resp. self.0 = self.0 op rhs.0), which is what lets the formula rules (CB1, SK5, LS4, BM1) treat `a + b` on these types as integer addition; BlockCount::offset_bytes(n) = self + n/512 and BlockIdx::into_bytes = self*512")
 def nt1(F, R):
     from .poly import peq, ADD, SUB
     n = 0
@@ -231,3 +231,235 @@ def nt1(F, R):
             ok = len(st) == 1 and peq(st[0], ADD(("place", a, ("*",)), b) if op.startswith("add") else SUB(("place", a, ("*",)), b))
         R.require(ok, fn, "plain:" + p.split(" as ")[0].split("::")[-1] + "::" + op, "%s is not plain field arithmetic" % p, fn.loc(0))
     R.require(n >= 10, None, "impls", "expected >= 10 arithmetic impls on the newtypes, found %d" % n)
+    from .poly import DIV, MUL, C
+    fn = F.fn("blockdevice::BlockCount::offset_bytes")
+    rets = [fn.term_of_rvalue(d[3], d[1]) if d[0] == "assign" else fn.call_term(d[2], d[1]) for d in fn.defs().get(0, [])]
+    R.require(len(rets) == 1 and peq(rets[0], ADD(("arg", 1, "self"), DIV(("arg", 2, "offset"), C(512)))), fn, "offset_bytes", "BlockCount::offset_bytes(self, n) must be self + n / 512 (the FAT sector holding byte offset n), got %s" % [tstr(r) for r in rets], fn.loc(0))
+    fn = F.fn("blockdevice::BlockIdx::into_bytes")
+    rets = [fn.term_of_rvalue(d[3], d[1]) if d[0] == "assign" else fn.call_term(d[2], d[1]) for d in fn.defs().get(0, [])]
+    R.require(len(rets) == 1 and peq(rets[0], MUL(("arg", 1, "self"), C(512))), fn, "into_bytes", "BlockIdx::into_bytes must be self * 512, got %s" % [tstr(r) for r in rets], fn.loc(0))
+
+
+WRAPPER_TABLE = {
+    # wrapper method -> (VolumeManager method, handle field)
+    "filesystem::files::File::read": ("read", "raw_file"),
+    "filesystem::files::File::write": ("write", "raw_file"),
+    "filesystem::files::File::is_eof": ("file_eof", "raw_file"),
+    "filesystem::files::File::seek_from_current": ("file_seek_from_current", "raw_file"),
+    "filesystem::files::File::seek_from_start": ("file_seek_from_start", "raw_file"),
+    "filesystem::files::File::seek_from_end": ("file_seek_from_end", "raw_file"),
+    "filesystem::files::File::length": ("file_length", "raw_file"),
+    "filesystem::files::File::offset": ("file_offset", "raw_file"),
+    "filesystem::files::File::flush": ("flush_file", "raw_file"),
+    "filesystem::files::File::close": ("close_file", "raw_file"),
+    "filesystem::directory::Directory::open_dir": ("open_dir", "raw_directory"),
+    "filesystem::directory::Directory::find_directory_entry": ("find_directory_entry", "raw_directory"),
+    "filesystem::directory::Directory::iterate_dir": ("iterate_dir", "raw_directory"),
+    "filesystem::directory::Directory::iterate_dir_lfn": ("iterate_dir_lfn", "raw_directory"),
+    "filesystem::directory::Directory::open_file_in_dir": ("open_file_in_dir", "raw_directory"),
+    "filesystem::directory::Directory::delete_file_in_dir": ("delete_file_in_dir", "raw_directory"),
+    "filesystem::directory::Directory::make_dir_in_dir": ("make_dir_in_dir", "raw_directory"),
+    "filesystem::directory::Directory::close": ("close_dir", "raw_directory"),
+    "Volume::open_root_dir": ("open_root_dir", "raw_volume"),
+    "Volume::close": ("close_volume", "raw_volume"),
+}
+
+
+@rule("WP1", ["C01", "C06", "C07", "C08"], floor=20,
+      doc="the handle wrappers File / Directory / Volume are pure delegation: each method makes exactly one VolumeManager call, the one of the same meaning (table in the rule), on its own volume_mgr with its own raw handle first and its remaining parameters in order; so everything established for the raw API holds through the wrappers (seek_from_end is not seek_from_start, length is not offset, ...)")
+def wp1(F, R):
+    for wname, (target, hfield) in WRAPPER_TABLE.items():
+        fn = F.fn(wname)
+        vm = [(b, t) for b, t in fn.calls() if strip_generics(t.get("resolved") or t.get("callee") or "").startswith("volume_mgr::VolumeManager::")]
+        ok = len(vm) == 1
+        det = "expected exactly one VolumeManager call, found %s" % [strip_generics(t.get("resolved") or t["callee"]).split("::")[-1] for b, t in vm]
+        if ok:
+            b, t = vm[0]
+            callee = strip_generics(t.get("resolved") or t["callee"]).split("::")[-1]
+            args = [strip_refs(fn.term_of_operand(a, b)) for a in t["args"]]
+            ok = callee == target
+            det = "calls VolumeManager::%s, expected %s" % (callee, target)
+            if ok:
+                a0, a1 = args[0], args[1]
+                lf = lambda x: ([e for e in x[2] if isinstance(e, str) and e != "*"] or [None])[-1] if x[0] == "place" else None
+                ok = lf(a0) == "volume_mgr" and strip_refs(a0[1])[:2] == ("arg", 1) and lf(a1) == hfield and strip_refs(a1[1])[:2] == ("arg", 1)
+                det = "must be called on self.volume_mgr with self.%s, got (%s, %s)" % (hfield, tstr(a0), tstr(a1))
+            if ok:
+                rest = args[2:]
+                want = list(range(2, 2 + len(rest)))
+                got = [x[1] if x[0] == "arg" else None for x in rest]
+                ok = got == want
+                det = "remaining arguments must be the wrapper's own parameters in order, got %s" % [tstr(x) for x in rest]
+        R.require(ok, fn, "delegates:" + wname.split("::")[-1], "%s: %s" % (wname, det), fn.loc(0), okdetail="-> VolumeManager::%s(self.%s, ..)" % (target, hfield))
+    # change_dir: open_dir(self.raw, name) then close_dir(self.raw) then self.raw = new
+    fn = F.fn("filesystem::directory::Directory::change_dir")
+    seq = [strip_generics(t.get("resolved") or t["callee"]).split("::")[-1] for b, t in fn.calls() if strip_generics(t.get("resolved") or t.get("callee") or "").startswith("volume_mgr::VolumeManager::")]
+    R.require(seq == ["open_dir", "close_dir"], fn, "change_dir", "change_dir must open the new directory and then close the old one, got %s" % seq, fn.loc(0))
+
+
+@rule("HV3", ["C08", "C01"], floor=3,
+      doc="handle lookup is exact: get_volume_by_id / get_dir_by_id / get_file_by_id return Ok(i) only for the enumerate() index i of an entry of the matching table whose stored raw handle equals the argument, and Err(BadHandle) otherwise; no other success value")
+def hv3(F, R):
+    for name, table, field in (("get_volume_by_id", "open_volumes", "raw_volume"), ("get_dir_by_id", "open_dirs", "raw_directory"), ("get_file_by_id", "open_files", "raw_file")):
+        fn = F.fn(VMD + "::" + name)
+        oks = ok_returns(fn)
+        ok = len(oks) == 1
+        det = "expected one Ok return, found %d" % len(oks)
+        if ok:
+            b, i, v = oks[0]
+            # the value is the .0 of the enumerate item, the iterator iterates self.<table>
+            it = [q for q in subterms(v) if q[0] == "call" and q[1] and q[1].endswith("Iterator::next")]
+            ok = v[0] == "place" and tuple(v[2]) == ("as:Some", "0", "0") and len(it) == 1
+            det = "Ok value must be the enumerate() index of the matching entry, got %s" % tstr(v)
+            if ok:
+                itv = strip_refs(it[0][2][0])
+                defs = var_def_terms(fn, itv[1]) if itv[0] == "var" else [itv]
+                ok = len(defs) == 1 and "enumerate(iter(" in tstr(defs[0]) and table in tstr(defs[0]) and has_sub(defs[0], lambda q: q[0] == "place" and q[1][:2] == ("arg", 1) and last_field(q) == table)
+                det = "the lookup must enumerate self.%s from its start, iterates %s" % (table, [tstr(d) for d in defs])
+            if ok:
+                def eqp(g):
+                    if not (g.kind == "bool" and g.truth and g.term[0] == "cmp" and g.term[1] == "Eq"):
+                        return False
+                    a, z = strip_refs(g.term[2]), strip_refs(g.term[3])
+                    for x, y in ((a, z), (z, a)):
+                        if y[:2] == ("arg", 2) and x[0] == "place" and last_field(x) == field and has_sub(x, lambda q: q == it[0]):
+                            return True
+                    return False
+                ok = guarded(fn, b, eqp)[0]
+                det = "Ok(i) must be guarded by entry.%s == the handle asked for" % field
+        R.require(ok, fn, "exact:" + name, "%s: %s" % (name, det), fn.loc(0))
+        errs = err_returns(fn)
+        R.require(len(errs) == 1 and errs[0][2] == "BadHandle", fn, "badhandle:" + name, "%s must fail with BadHandle only" % name, fn.loc(0))
+
+
+ATTR_BITS = {"READ_ONLY": 0x01, "HIDDEN": 0x02, "SYSTEM": 0x04, "VOLUME": 0x08, "DIRECTORY": 0x10, "ARCHIVE": 0x20, "LFN": 0x0F}
+ATTR_PREDS = {"is_read_only": "READ_ONLY", "is_hidden": "HIDDEN", "is_system": "SYSTEM", "is_volume": "VOLUME", "is_directory": "DIRECTORY", "is_archive": "ARCHIVE", "is_lfn": "LFN"}
+
+
+@rule("AT1", ["C06", "C07", "C18", "C02"], floor=15,
+      doc="attribute byte per the FAT specification: READ_ONLY 0x01, HIDDEN 0x02, SYSTEM 0x04, VOLUME 0x08, DIRECTORY 0x10, ARCHIVE 0x20, LFN 0x0F; each is_x() is (bits & X) == X for its own X; create_from_fat is the identity on the byte; set_archive only ever ORs 0x20 / 0 into the byte")
+def at1(F, R):
+    def ret(fn):
+        r = [fn.term_of_rvalue(d[3], d[1]) if d[0] == "assign" else fn.call_term(d[2], d[1]) for d in fn.defs().get(0, [])]
+        return r[0] if len(r) == 1 else None
+    for nm, v in ATTR_BITS.items():
+        got = F.const("filesystem::attributes::Attributes::" + nm)
+        R.require(got == v, None, "const:" + nm, "Attributes::%s is %#x, the FAT specification says %#x" % (nm, got, v), okdetail="%s = %#x" % (nm, v))
+    bits = ("place", ("arg", 1), ("0",))
+    for pn, cn in ATTR_PREDS.items():
+        fn = F.fn("filesystem::attributes::Attributes::" + pn)
+        t = ret(fn)
+        m = ATTR_BITS[cn]
+        ok = False
+        if t is not None and t[0] == "bin" and t[1] == "Eq":
+            for a, z in ((t[2], t[3]), (t[3], t[2])):
+                if z[:2] == ("c", m) and a[0] == "bin" and a[1] == "BitAnd":
+                    for x, y in ((a[2], a[3]), (a[3], a[2])):
+                        if y[:2] == ("c", m) and tmatch(x, bits) is not None:
+                            ok = True
+        if t is not None and not ok and m != 0x0F and t[0] == "bin" and t[1] == "Ne":       # (bits & X) != 0 for single-bit masks
+            for a, z in ((t[2], t[3]), (t[3], t[2])):
+                if z[:2] == ("c", 0) and a[0] == "bin" and a[1] == "BitAnd" and any(y[:2] == ("c", m) and tmatch(x, bits) is not None for x, y in ((a[2], a[3]), (a[3], a[2]))):
+                    ok = True
+        R.require(ok, fn, "pred:" + pn, "%s must be (bits & %s) == %s with %s = %#x, got %s" % (pn, cn, cn, cn, m, tstr(t) if t else None), fn.loc(0))
+    fn = F.fn("filesystem::attributes::Attributes::create_from_fat")
+    t = ret(fn)
+    R.require(t is not None and t[0] == "agg" and len(t[3]) == 1 and t[3][0][:2] == ("arg", 1), fn, "create_from_fat", "create_from_fat must wrap the byte unchanged, got %s" % (tstr(t) if t else None), fn.loc(0))
+    fn = F.fn("filesystem::attributes::Attributes::set_archive")
+    st = [(b, fn.term_of_rvalue(s["rv"], b)) for b, i, s in fn.stmts() if s["k"] == "Assign" and s["p"]["proj"] and s["p"]["l"] == 1]
+    ok = len(st) == 1 and st[0][1][0] == "bin" and st[0][1][1] == "BitOr"
+    if ok:
+        other = [x for x in (st[0][1][2], st[0][1][3]) if not (x[0] == "place" and strip_refs(x[1])[:2] == ("arg", 1))]
+        vals = []
+        for x in other:
+            x = strip_refs(x)
+            vals += [d[1] if d[0] == "c" else None for d in (var_def_terms(fn, x[1]) if x[0] == "var" else [x])]
+        ok = len(other) == 1 and bool(vals) and all(v in (0, 0x20) for v in vals) and 0x20 in vals
+    R.require(ok, fn, "set_archive", "set_archive must OR the ARCHIVE bit (0x20) into the byte and touch nothing else", fn.loc(0))
+
+
+@rule("MT6", ["C15"], floor=5,
+      doc="BPB field selection per the FAT specification: fat_size() is BPB_FATSz16 when that is non-zero and BPB_FATSz32 otherwise; total_blocks() is BPB_TotSec16 when non-zero and BPB_TotSec32 otherwise (the 32-bit field of a FAT16 volume with a 16-bit count is not meaningful); fs_info_block() is Some(BPB_FSInfo) exactly for FAT32; total_clusters() is the count computed at parse time")
+def mt6(F, R):
+    from .poly import nkey
+    for name, f16, f32 in (("fat_size", "fat_size16", "fat_size32"), ("total_blocks", "total_blocks16", "total_blocks32")):
+        fn = F.fn("fat::bpb::Bpb::" + name)
+        alts = []
+        for d in fn.defs().get(0, []):
+            t = fn.term_of_rvalue(d[3], d[1]) if d[0] == "assign" else fn.call_term(d[2], d[1])
+            for (x, blks) in _alts(fn, t):
+                alts.append((x, [d[1]] + blks))
+        def is16(x):
+            k = nkey(x)
+            return isinstance(k, tuple) and k[0] == "call" and k[1] and k[1].endswith("Bpb::" + f16)
+        def is32(x):
+            k = nkey(x)
+            return isinstance(k, tuple) and k[0] == "call" and k[1] and k[1].endswith("Bpb::" + f32)
+        nz16 = lambda truth: (lambda g: g.kind == "bool" and g.term[0] == "cmp" and g.term[1] == "Eq" and g.truth is truth and ((is16(g.term[2]) and g.term[3][:2] == ("c", 0)) or (is16(g.term[3]) and g.term[2][:2] == ("c", 0))))
+        ok = len(alts) == 2
+        n16 = n32 = 0
+        for (x, blks) in alts:
+            if is16(x) and any(guarded(fn, b, nz16(False))[0] for b in blks):
+                n16 += 1
+            elif is32(x) and any(guarded(fn, b, nz16(True))[0] for b in blks):
+                n32 += 1
+        R.require(ok and n16 == 1 and n32 == 1, fn, "select:" + name, "%s() must be %s() if that is non-zero and %s() otherwise; got %s" % (name, f16, f32, [tstr(x) for x, _ in alts]), fn.loc(0))
+    fn = F.fn("fat::bpb::Bpb::fs_info_block")
+    alts = []
+    for d in fn.defs().get(0, []):
+        t = fn.term_of_rvalue(d[3], d[1]) if d[0] == "assign" else fn.call_term(d[2], d[1])
+        alts.append((t, d[1]))
+    somes = [(t, b) for t, b in alts if t[0] == "agg" and t[2] and t[2].endswith("Option::Some")]
+    nones = [(t, b) for t, b in alts if t[0] == "agg" and t[2] and t[2].endswith("Option::None")]
+    ok = len(somes) == 1 and len(nones) == 1 and len(alts) == 2
+    if ok:
+        k = nkey(somes[0][0][3][0])
+        ok = isinstance(k, tuple) and k[0] == "call" and k[1].endswith("Bpb::fs_info")
+        g32, _ = guarded(fn, somes[0][1], lambda g: "fat_type" in tstr(g.term) and ((g.kind == "variant" and g.variant == "Fat32") or (g.kind == "value" and g.value == F.variant_index("fat::FatType", "Fat32"))))
+        g16, _ = guarded(fn, nones[0][1], lambda g: "fat_type" in tstr(g.term) and ((g.kind == "variant" and g.variant == "Fat16") or (g.kind == "value" and g.value == F.variant_index("fat::FatType", "Fat16"))))
+        ok = ok and g32 and g16
+    R.require(ok, fn, "fs_info_block", "fs_info_block() must be Some(BlockCount(fs_info())) for FAT32 and None for FAT16; got %s" % [tstr(t) for t, _ in alts], fn.loc(0))
+    fn = F.fn("fat::bpb::Bpb::total_clusters")
+    rets = [fn.term_of_rvalue(d[3], d[1]) if d[0] == "assign" else fn.call_term(d[2], d[1]) for d in fn.defs().get(0, [])]
+    R.require(len(rets) == 1 and rets[0][0] == "place" and last_field(rets[0]) == "cluster_count", fn, "total_clusters", "total_clusters() must return the parsed cluster_count", fn.loc(0))
+    # the three regions used by the cluster count: (total - (reserved + fats*fat_size + root_dir_blocks)) / blocks_per_cluster is established by MT1/MT2
+    R.ok(None, "note", "cluster-count formula itself: rules MT1 / MT2")
+
+
+def _alts(fn, t):
+    from .rules_walk import alternatives
+    return alternatives(fn, t)
+
+
+@rule("TS3", ["C18", "C02"], floor=7,
+      doc="Timestamp::from_calendar stores (year - 1970) as u8, month - 1, day - 1, hours, minutes, seconds and succeeds only under year in 1970..=2225, month in 1..=12, day in 1..=31, hours <= 23, minutes <= 59, seconds <= 59 (so the narrowing cast and the decrements are exact and the FAT encoder's `+ 1` cannot overflow)")
+def ts3(F, R):
+    from .poly import peq, SUB, C
+    fn = F.fn("filesystem::timestamp::Timestamp::from_calendar")
+    oks = ok_returns(fn)
+    R.require(len(oks) == 1, fn, "single-ok", "expected one Ok(Timestamp{..}) return", fn.loc(0))
+    for (b, i, v) in oks:
+        ok = v[0] == "agg" and len(v[3]) == 6
+        if ok:
+            y, mo, d, h, mi, s_ = v[3]
+            ok = y[0] == "cast" and y[1] == "u8" and peq(y[2], SUB(("arg", 1, None), C(1970))) and peq(mo, SUB(("arg", 2, None), C(1))) and peq(d, SUB(("arg", 3, None), C(1)))
+            ok = ok and h[:2] == ("arg", 4) and mi[:2] == ("arg", 5) and s_[:2] == ("arg", 6)
+        R.require(ok, fn, "fields", "from_calendar must store (year-1970) as u8, month-1, day-1, hours, minutes, seconds; got %s" % tstr(v), fn.loc(b, i))
+
+        def rng(argidx, lo, hi):
+            def pred(g):
+                if g.kind != "bool" or not g.truth:
+                    return False
+                t = g.term
+                if t[0] == "call" and t[1] and t[1].endswith("contains"):
+                    r = strip_refs(t[2][0])
+                    x = strip_refs(t[2][1])
+                    return x[:2] == ("arg", argidx) and r[0] == "call" and r[1] and r[1].endswith("RangeInclusive::new") and r[2][0][:2] == ("c", lo) and r[2][1][:2] == ("c", hi)
+                return False
+            return pred
+        for nm, idx, lo, hi in (("year", 1, 1970, 2225), ("month", 2, 1, 12), ("day", 3, 1, 31)):
+            R.require(guarded(fn, b, rng(idx, lo, hi))[0], fn, "range:" + nm, "Ok must require %s in %d..=%d" % (nm, lo, hi), fn.loc(b, i))
+        for nm, idx, hi in (("hours", 4, 23), ("minutes", 5, 59), ("seconds", 6, 59)):
+            g1 = guarded(fn, b, g_cmp("Le", True, lambda a, idx=idx: a[:2] == ("arg", idx), lambda z, hi=hi: z[:2] == ("c", hi)))[0]
+            g2 = guarded(fn, b, g_cmp("Lt", True, lambda a, idx=idx: a[:2] == ("arg", idx), lambda z, hi=hi: z[:2] == ("c", hi + 1)))[0]
+            R.require(g1 or g2, fn, "range:" + nm, "Ok must require %s <= %d" % (nm, hi), fn.loc(b, i))
